@@ -26,6 +26,8 @@ V6 = [
     dict(nA=1, nB=1, away=True),
     dict(nA=0, nB=1, gB=1, mA=1, jB=1),
     dict(nA=2, nB=0, gA=1, gB=1, away=True),
+    dict(nA=0, nB=0, mA=1, mB=2),          # 6: only merged particles
+    dict(nA=0, nB=0, mA=2, mB=0, jA=1),    # 7: only merged A particles behind junk
 ]
 
 
@@ -53,7 +55,7 @@ def rich_opts():
             for ub in (True, 'pid', 'lagr_pos', 'tagged', 'density', 'lagr_idx', ['lagr_idx', 'density']):
                 o.append(dict(cleaned=c, AB=ab, which=['pos', 'pid'], unpack_bits=ub))
             o.append(dict(cleaned=c, AB=ab, passthrough=True))
-            for path in ('file0', 'list', 'list_rev', 'hinfo'):
+            for path in ('file0', 'file_last', 'list', 'list_rev', 'list_tail', 'hinfo'):
                 o.append(dict(cleaned=c, AB=ab, path=path))
         o.append(dict(cleaned=c, subs=True))
         o.append(dict(cleaned=c, subs=True, passthrough=True))
@@ -68,7 +70,7 @@ def seqs(nv, H):
 
 def cases(tier, seed):
     S, H = (2, 2) if tier == 'quick' else (3, 2)
-    per = list(seqs(6, H))
+    per = list(seqs(6, H))   # (variants 6, 7 are used by the dedicated empty-file catalogs only)
     for s in range(1, S + 1):
         for combo in itertools.product(per, repeat=s):
             yield dict(kind='core', alpha=6, slabs=[list(c) for c in combo])
@@ -84,6 +86,9 @@ def cases(tier, seed):
             [[2, 2, 2]], [[5, 4, 3, 2, 1, 0]]]
     for r in rich:
         yield dict(kind='rich', alpha=6, slabs=r)
+    # superslabs whose original particle files are EMPTY while their halos have merged-in particles (no trailing records)
+    for r in ([[6, 6], [2]], [[6], [6, 7]], [[7, 6, 6]], [[2, 1], [6]]):
+        yield dict(kind='rich', alpha=6, slabs=r, trailing=False)
     # halo light-cone layout: all sequences of <=3 halos over (count, gap) variants x all row masks x subsample options
     lcv = [(0, 0), (1, 0), (2, 1), (1, 1)] if tier == 'quick' else [(0, 0), (1, 0), (2, 1), (1, 1), (3, 0), (0, 1)]
     for n in range(0, 4):
@@ -283,7 +288,7 @@ def run(case):
         return run_lc(case)
     alpha = V6 if case['alpha'] == 6 else V18
     slabs = [[alpha[i] for i in s] for s in case['slabs']]
-    cat = catgen.Catalog(slabs)
+    cat = catgen.Catalog(slabs, trailing=case.get('trailing', True))
     probs = []
     nloads = 0
     rows = 0
@@ -296,6 +301,10 @@ def run(case):
         pf = o.get('path')
         if pf == 'file0':
             path, order = fns[0], [0]
+        elif pf == 'file_last':
+            path, order = fns[-1], [len(fns) - 1]
+        elif pf == 'list_tail':
+            path, order = list(fns[1:]) or list(fns), (list(range(1, len(fns))) or [0])
         elif pf == 'list':
             path = list(fns)
         elif pf == 'list_rev':
